@@ -9,20 +9,26 @@ FRAGMENT = {
                'with deferred cancellation), real proxy-msg.c and 1-5 real proxy-client.c clients as tasks over a simulated kernel (AF_UNIX '
                'stream sockets with bounded buffers 64 B - 64 KiB, select, pipe, clock, alarm/signals, pthread mutex/cond/create/cancel/join) '
                'and a simulated capture device; schedules (random / sticky / PCT at every syscall and pthread operation), connect / read / stall / '
-               'service change / close scripts, short send/recv, EINPROGRESS connects, slow readers; oracle = per client subsequence of the device '
+               'service change / close scripts, short send/recv, EINPROGRESS connects, slow readers; in about half of the runs a device task makes '
+               'device reads fail as scripted (read returns 0 although select reported the descriptor readable / the blocking read of the '
+               'thread variant returns early, or -1 with EIO / EAGAIN / EBUSY; bursts of 1-40 back to back or up to 40 ms apart, between '
+               'frames or on a frame that is due, the frame lost in the driver or not), long reads as quiet phases; oracle = per client subsequence of the device '
                'hand-over log (exactly once, in order, timestamp, filtered lines, no gap for a reader that keeps up), grants = direct capture, '
-               'white-box queue audit and device-open-iff-subscribed at every quiescent point, daemon heap back to its baseline and one '
+               'a subscribed client is never left a full second (25 frame periods) in one read call without a frame unless a device fault was '
+               'planned for that window, white-box queue audit and device-open-iff-subscribed at every quiescent point, daemon heap back to its baseline and one '
                'descriptor left when the last client is gone; sampling, not proof',
  'level_note': 'trusted: the simulated kernel (my model of Linux socket/select/pipe semantics; EINTR is not injected into non-blocking socket '
                'calls), the capture device stub (frames generated per 40 ms of simulated time, grants computed with the library\'s own '
-               'vbi_raw_decoder_add_services on a fixed VBI window), the hand-over log as ground truth, clang ASan/UBSan (bounds reports '
+               'vbi_raw_decoder_add_services on a fixed VBI window), the hand-over log as ground truth (only frames a device read returned with > 0 are in it; failed reads '
+               'hand nothing over; EINTR / ETIME are not injected at the capture interface because io-v4l2k.c and io-v4l.c retry them internally), clang ASan/UBSan (bounds reports '
                '"index -1" of the VBI_GET_SERVICE_P macro are filtered, see worlds/w_proxy.cc).  Raw (unsliced) services, TCP/IP listening, '
                'syslog and channel flush notifications are not exercised under C18.  Frames captured before a client\'s own service change '
                'and delivered after it are checked for order and uniqueness only',
  'design_ref': 'DESIGN.md section 6 (C18)',
- 'rule': 'one evaluation = one simulated run of 0.1-20 simulated seconds: 1-5 clients with scripts of 2-14 operations against one daemon; '
+ 'rule': 'one evaluation = one simulated run of 0.1-20 simulated seconds: 1-5 clients with scripts of 2-14 operations against one daemon, in about half of the runs a device task with 1-4 bursts of failing reads; '
          'non-trivial = at least 10 frames received in total and at least one client received 5 or more; distinct = distinct event-log hash',
- 'fault_kinds': ['fault_short_send', 'fault_short_recv', 'fault_connect_inprogress', 'fault_client_stall'],
+ 'fault_kinds': ['fault_short_send', 'fault_short_recv', 'fault_connect_inprogress', 'fault_client_stall', 'fault_dev_read_timeout',
+                 'fault_dev_read_eio', 'fault_dev_read_eagain', 'fault_dev_read_ebusy'],
  'state_note': 'hash of the first 24 scheduling decisions of each run plus abstract daemon states at quiescent points (number of connections, '
                'queue depths, service union, per client state / queued frames / token state)',
  'components': {'real': ['daemon/proxyd.c (embedded unmodified, main() renamed)', 'src/proxy-msg.c', 'src/proxy-client.c', 'src/inout.c',
